@@ -60,6 +60,8 @@ def child_pass(pid, tier, res, key, what, argv_extra, env_extra):
     lines = p.stdout.splitlines()
     n = 0
     for i, l in enumerate(lines):
+        if l.startswith('KNOWN-FINDING: property=%s ' % pid):
+            res.known.append(l.split(' ', 2)[2])
         if l.startswith('VIOLATION'):
             n += 1
             w = lines[i + 1].strip() if i + 1 < len(lines) else ''
@@ -102,7 +104,8 @@ def main():
         else:
             i += 1
     if tier not in ('quick', 'thorough'):
-        tier = 'quick'
+        print('HARNESS-ERROR property=%s unknown tier %r (quick | thorough)' % (pid, tier))
+        sys.exit(2)
     res = common.Result(pid, tier)
     try:
         mod = importlib.import_module('checks.' + pid.lower())
